@@ -381,7 +381,8 @@ func nfc(s string) string { return norm.NFC.String(s) }
 
 // diffStruct compares the generated value (want) with the loaded one (got).
 // Attribute strings are compared after NFC (cty normalises every string value to NFC on entry,
-// docs/types.md of go-cty); block labels never pass through cty and are compared byte for byte.
+// docs/types.md of go-cty); block labels do not pass through cty in the loader (but do in hclwrite):
+// a label is accepted byte for byte or NFC-normalised.
 // A nil and an empty []string / map are the same configuration.
 func diffStruct(path string, want, got reflect.Value, out *[]diffEntry) {
 	ty := want.Type()
@@ -393,7 +394,7 @@ func diffStruct(path string, want, got reflect.Value, out *[]diffEntry) {
 		w, g := want.Field(f.idx), got.Field(f.idx)
 		switch f.kind {
 		case fLabel:
-			if w.String() != g.String() {
+			if w.String() != g.String() && nfc(w.String()) != g.String() {
 				*out = append(*out, diffEntry{p, p, "label", fmt.Sprintf("%q", w.String()), fmt.Sprintf("%q", g.String())})
 			}
 		case fAttr, fOptional:
